@@ -229,55 +229,40 @@ def check_task_args(repo, canon, res, f, fr, tc, loop, ab, G, NODE):
     td = "%s.nodes[%s]['task_data']" % (G, NODE)
     verdict('task_data', P.get('task_data') in (td, '{0|%s}' % td, "%s.nodes[%s].get('task_data', 0)" % (G, NODE)),
             "G.nodes[NODE]['task_data'] (default 0)", 'the data demand is not read from this node')
-    # io: dict filled per predecessor edge
+    # io: the per-edge volumes, as a map built over the in-edges of this node
     io = a.get('io')
-    if not isinstance(io, ast.Name):
-        verdict('io', False, 'per-edge transfer volumes', 'not a dictionary built from the in-edges')
-        return
-    D = io.id
-    inside = {id(n) for n in ast.walk(loop)}
-    fresh = [n for n in ast.walk(loop) if isinstance(n, ast.Assign) and any(
-        isinstance(t, ast.Name) and t.id == D for t in n.targets)]
-    stores = [n for n in ast.walk(f.node) if isinstance(n, ast.Assign) and any(
-        isinstance(t, ast.Subscript) and isinstance(t.value, ast.Name) and t.value.id == D
-        for t in n.targets)]
-    ok = bool(fresh) and all(isinstance(n.value, ast.Dict) and not n.value.keys for n in fresh) \
-        and len(stores) >= 1
-    why = 'the edge-cost dictionary is not created empty for each node'
-    for st in stores:
-        if id(st) not in inside:
-            ok, why = False, 'an edge cost is stored outside the node loop'
-            continue
-        eloops = [l for l in enclosing_loops(f, st) if isinstance(l, ast.For) and l is not loop]
-        if not eloops:
-            ok, why = False, 'edge costs are not stored once per incoming edge'
-            continue
-        el = eloops[-1]
-        src = canon.p(el.iter, fr)
-        if src not in preds_src:
-            ok, why = False, 'edge costs are collected over %s, not over the in-edges of this node' % short(ab(src))
-            continue
-        # unconditional inside the edge loop
-        segs = iteration_segments(f, el)
-        for seg, how in segs:
-            if how == 'raise':
-                continue
-            cnt = sum(1 for e in seg if e.node is st)
-            if how != 'back' or cnt != 1:
-                ok, why = False, 'an incoming edge can be skipped when collecting transfer volumes'
-        tgt = [t for t in st.targets if isinstance(t, ast.Subscript)][0]
-        k = canon.p(tgt.slice, fr)
-        v = canon.p(st.value, fr)
-        E = 'elem(%s)' % src
-        if re.fullmatch(idcall(E), k) is None:
-            ok, why = False, 'edge cost key %s is not the id of the predecessor' % short(ab(k))
-        wantv = ["%s.pred[%s][%s]['transfer_data']" % (G, NODE, E),
-                 "%s[%s][%s]['transfer_data']" % (G, E, NODE),
-                 "%s.edges[%s, %s]['transfer_data']" % (G, E, NODE),
-                 "%s.edges[(%s, %s)]['transfer_data']" % (G, E, NODE)]
-        if v not in wantv:
-            ok, why = False, 'edge cost value %s is not the transfer volume of the edge pred->node' % short(ab(v))
-    P['io'] = '{%s}' % '; '.join(short(ab(canon.p(s.value, fr)), 80) for s in stores)
+    P_io = canon.p(io, fr) if io is not None else '<missing>'
+    ok = False
+    why = 'the per-edge transfer volumes are not a map {id(p): volume of edge p->node} over the in-edges of this node'
+    m = re.fullmatch(r'map\[(?P<k>.*): (?P<v>.*) for (?P<it>.*?)(?P<c> if .*)?\]', P_io)
+    if m and not m.group('c'):
+        it = m.group('it')
+        if it in preds_src:
+            E = 'elem(%s)' % it
+            kk, vv = m.group('k'), m.group('v')
+            wantv = ["%s.pred[%s][%s]['transfer_data']" % (G, NODE, E),
+                     "%s[%s]['transfer_data']" % (it, E),
+                     "%s[%s][%s]['transfer_data']" % (G, E, NODE),
+                     "%s.edges[%s, %s]['transfer_data']" % (G, E, NODE),
+                     "%s.edges[(%s, %s)]['transfer_data']" % (G, E, NODE)]
+            if re.fullmatch(idcall(E), kk) is None:
+                why = 'edge cost key %s is not the id of the predecessor' % short(ab(kk))
+            elif vv not in wantv:
+                why = 'edge cost value %s is not the transfer volume of the edge pred->node' % short(ab(vv))
+            else:
+                ok = True
+        else:
+            why = 'edge costs are collected over %s, not over the in-edges of this node' % short(ab(it))
+    elif m:
+        why = 'an incoming edge can be skipped when collecting transfer volumes (%s)' % short(ab(m.group('c')))
+    # the container must be created for each node (not shared between nodes)
+    if ok and isinstance(io, ast.Name):
+        defs = [n for n in ast.walk(f.node) if isinstance(n, ast.Assign) and any(
+            isinstance(t, ast.Name) and t.id == io.id for t in n.targets)]
+        inside = {id(n) for n in ast.walk(loop)}
+        if not defs or not all(id(n) in inside for n in defs):
+            ok, why = False, 'the edge-cost dictionary is not created for each node (values of other nodes leak in)'
+    P['io'] = P_io
     verdict('io', ok, "{id(p): G.pred[NODE][p]['transfer_data']}", why)
 
 
